@@ -10,9 +10,16 @@
 //            additive on/off, normalisation on/off, (subset) sensitivities, no prior / quadratic / RDP prior x additive /
 //            multiplicative MAP model, relative-change clamps, inter-update / inter-iteration filters (a harness-defined
 //            DataProcessor that records what it is given), every number of subsets the library accepts, start subset,
-//            enforce_initial_positivity on/off.  One sub-iteration at a time through the public API:
+//            enforce_initial_positivity on/off, `zero end planes of segment 0` off/on (setter set_zero_seg0_end_planes and the
+//            parameter-file keyword; plain-EM cases: a fixed pattern over geometry x data set, so that span 1 / span 3 / view
+//            mashing / TOF each meet it with 1 and with several subsets, with and without additive term / normalisation).
+//            One sub-iteration at a time through the public API:
 //            set_start_subiteration_num(k); set_num_subiterations(k); reconstruct(image).
 //            The data of the model come from a second, identically configured objective function object (probe).
+//   explicit : (non-TOF geometries) the explicit system matrix (`mat`) and the data per bin (`dat`) are operations too: for the
+//            first eligible and one more plain-EM sub-iteration of every case the Lean model forms numerator AND sensitivity
+//            itself (`emExplicit`: bins of the subset, segments to process, end planes of segment 0 zeroed) and answers 24
+//            voxels of the image after (`emx`)
 //   synth  : the same class with its documented protected virtual hooks
 //            (compute_sub_gradient_without_penalty_plus_sensitivity / get_subset_sensitivity) and a harness-defined prior
 //            feeding adversarial data (zeros, tiny values, negatives, values around every clamp) to the update rule.
@@ -21,7 +28,13 @@
 //            exactly those.
 // Oracle (property statement on the implementation; <implfile>.oracle)
 //   formula      : explicit system matrix P (rows from the real ProjMatrixByBin), textbook EM formula per voxel; the subset
-//                  sensitivities / gradient-plus-sensitivity / total sensitivity themselves against the explicit matrix
+//                  sensitivities / gradient-plus-sensitivity / total sensitivity themselves against the explicit matrix;
+//                  with `zero end planes of segment 0` P is the matrix WITHOUT the rows of the first and last sinogram of
+//                  segment 0, for numerator, sensitivity, counts and log-likelihood alike
+//   sens. files  : `recompute sensitivity := 1` + `sensitivity filename` / `subset sensitivity filenames` writes bitwise the
+//                  sensitivity in use; `recompute sensitivity := 0` + the names (setters or parameter-file keywords) reads them:
+//                  saved iterates bitwise those of the run that computes them; with files holding twice the sensitivity the
+//                  sensitivity in use is twice the computed one (and the sub-iteration is the model's with S := 2 s)
 //   nonneg       : non-negative image stays non-negative
 //   counts       : one subset, no additive: sum_j s_j lambda'_j = sum_b y_b
 //   monotone     : one subset, no prior: Poisson log-likelihood (compute_objective_function) does not decrease, and equals
@@ -74,6 +87,8 @@
 #include "stir/ExamInfo.h"
 #include "stir/Succeeded.h"
 #include "stir/IO/read_from_file.h"
+#include "stir/IO/write_to_file.h"
+#include <boost/format.hpp>
 #include <algorithm>
 #include <cmath>
 #include <cstring>
@@ -275,6 +290,22 @@ make_geo(int N, int R, int nxy, int symflags, int span = 1, int mash = 1, int to
       g.sbasic_view_sym = g.sbasic_view;
       for (std::size_t b = 0; b < g.sbins.size(); ++b)
         g.sbasic_view[b] = g.sbins[b].view_num();
+      { // information for the evidence file: voxels that the TOF matrix sees (numerator) but the non-TOF matrix, which STIR's
+        // default sensitivity is made with, does not (sensitivity 0): there a plain EM update is non-zero / 0
+        std::vector<double> ct(g.nvox, 0.), cn(g.nvox, 0.);
+        for (auto& row : g.rows)
+          for (auto& el : row)
+            ct[el.first] += el.second;
+        for (auto& row : g.srows)
+          for (auto& el : row)
+            cn[el.first] += el.second;
+        long only_tof = 0;
+        for (int j = 0; j < g.nvox; ++j)
+          only_tof += ct[j] > 0 && cn[j] == 0;
+        g_cov["tof_geometry_voxels_seen_by_tof_matrix_only"] += only_tof;
+        if (only_tof)
+          g_cov["tof_geometries_with_voxels_seen_by_tof_matrix_only"]++;
+      }
     }
   else
     {
@@ -289,6 +320,7 @@ make_geo(int N, int R, int nxy, int symflags, int span = 1, int mash = 1, int to
 struct Data
 {
   std::vector<double> y, add, eff; // per bin: counts, additive term (STIR convention: inside the brackets), efficiency
+  std::vector<double> normf;       // per bin: normalisation factor (1 without normalisation); eff = 1 / normf
   bool has_add, has_norm;
   shared_ptr<ProjDataInMemory> y_pd, add_pd, norm_pd;
   mutable std::string file_prefix; // Interfile copies of the projection data (parameter-file path), written on first use
@@ -372,12 +404,49 @@ make_data(const Geo& g, vh::Rng& rng, bool has_add, bool has_norm, double level,
         fwd += e.second * truth[e.first];
       d.y[b] = poisson(rng, level * d.eff[b] * (fwd + (has_add ? d.add[b] / 4 : 0.)));
     }
+  d.normf = normf;
   d.y_pd = make_pd(g, d.y);
   if (has_add)
     d.add_pd = make_pd(g, d.add);
   if (has_norm)
     d.norm_pd = make_pd(g, normf);
   return d;
+}
+
+// ------------------------------------------------------------------------------------------------ explicit system for the model
+// `mat`: the explicit system matrix of the geometry (rows from the real ProjMatrixByBin, basic view from its symmetries, axial
+// range of the segment) and `dat`: counts, additive term, normalisation factors per bin: the Lean model (`emExplicit`) forms
+// numerator and sensitivity of the EM update from them itself (non-TOF geometries: one matrix for both)
+static void
+put_mat(const Geo& g)
+{
+  std::fprintf(g_ops, "mat %d %zu", g.nvox, g.bins.size());
+  for (std::size_t b = 0; b < g.bins.size(); ++b)
+    {
+      const int seg = g.bins[b].segment_num();
+      std::fprintf(g_ops, " R %d %d %d %d %d %zu", seg, g.basic_view[b], g.bins[b].axial_pos_num(), g.pdi->get_min_axial_pos_num(seg),
+                   g.pdi->get_max_axial_pos_num(seg), g.rows[b].size());
+      for (auto& el : g.rows[b])
+        std::fprintf(g_ops, " %d %a", el.first, static_cast<double>(el.second));
+    }
+  std::fprintf(g_ops, "\n");
+  std::fprintf(g_out, "ok\n");
+}
+
+static void
+put_dat(const Geo& g, const Data& d)
+{
+  auto put = [&](const char* tag, const std::vector<double>& v) {
+    std::fprintf(g_ops, " %s", tag);
+    for (double x : v)
+      std::fprintf(g_ops, " %a", x);
+  };
+  std::fprintf(g_ops, "dat %zu", g.bins.size());
+  put("Y", d.y);
+  put("A", d.add);
+  put("N", d.normf);
+  std::fprintf(g_ops, "\n");
+  std::fprintf(g_out, "ok\n");
 }
 
 // ------------------------------------------------------------------------------------------------ harness-defined filter
@@ -439,6 +508,13 @@ struct RunCfg
   int save_interval = 1;
   bool post = false; // a post-filter (Reconstruction::set_post_processor_sptr)
   float post_shift = 0.F;
+  bool zero_end = false; // `zero end planes of segment 0` (set_zero_seg0_end_planes)
+  // sensitivity files: 0 none (computed, not written); 1 `recompute sensitivity := 1` + file name(s): computed and WRITTEN;
+  // 2 `recompute sensitivity := 0` + file name(s): READ from the files
+  int sens_mode = 0;
+  std::string sens_prefix;
+  std::string sens_filename() const { return sens_prefix + "_sens.hv"; }
+  std::string subsens_pattern() const { return sens_prefix + "_subsens_%d.hv"; }
   bool prior_active() const { return prior == 1 || prior == 2; }
   int map_code() const { return prior_active() ? map : 0; }
 };
@@ -462,6 +538,15 @@ make_obj(const Geo& g, const Data& d, const RunCfg& c)
   if (d.has_norm)
     obj->set_normalisation_sptr(shared_ptr<BinNormalisation>(new BinNormalisationFromProjData(d.norm_pd)));
   obj->set_use_subset_sensitivities(c.use_subset_sens);
+  obj->set_zero_seg0_end_planes(c.zero_end);
+  if (c.sens_mode != 0)
+    {
+      obj->set_recompute_sensitivity(c.sens_mode == 1);
+      if (c.use_subset_sens)
+        obj->set_subsensitivity_filenames(c.subsens_pattern());
+      else
+        obj->set_sensitivity_filename(c.sens_filename());
+    }
   if (c.max_seg >= 0)
     obj->set_max_segment_num_to_process(c.max_seg);
   if (c.prior == 1 || c.prior == 3)
@@ -654,7 +739,7 @@ write_par(const Geo& g, const Data& d, const RunCfg& c, int start, int last, con
     << "PoissonLogLikelihoodWithLinearModelForMeanAndProjData Parameters :=\n"
     << "  input file := " << d.file_prefix << "_y.hs\n"
     << "  maximum absolute segment number to process := " << c.max_seg << "\n"
-    << "  zero end planes of segment 0 := 0\n"
+    << "  zero end planes of segment 0 := " << (c.zero_end ? 1 : 0) << "\n"
     << "  projector pair type := Matrix\n"
     << "    Projector Pair Using Matrix Parameters :=\n"
     << "      Matrix type := Ray Tracing\n"
@@ -685,6 +770,14 @@ write_par(const Geo& g, const Data& d, const RunCfg& c, int start, int last, con
       << "      gamma value := 2\n"
       << "      epsilon value := 0.01\n"
       << "    END Relative Difference Prior Parameters :=\n";
+  if (c.sens_mode != 0)
+    {
+      f << "  recompute sensitivity := " << (c.sens_mode == 1 ? 1 : 0) << "\n";
+      if (c.use_subset_sens)
+        f << "  subset sensitivity filenames := " << c.subsens_pattern() << "\n";
+      else
+        f << "  sensitivity filename := " << c.sens_filename() << "\n";
+    }
   f << "  use_subset_sensitivities := " << (c.use_subset_sens ? 1 : 0) << "\n"
     << "  zoom := 1\n"
     << "  XY output image size (in pixels) := " << g.nx << "\n"
@@ -729,6 +822,15 @@ struct Explicit
   double total_counts = 0, ll = 0, ll_mag = 0;
 };
 
+// `zero end planes of segment 0`: the bins of the first and the last sinogram of segment 0 are not part of the system
+// (neither of the numerator nor of the sensitivity nor of the log-likelihood)
+static bool
+end_plane_zeroed(const Geo& g, const RunCfg& c, const Bin& bin)
+{
+  return c.zero_end && bin.segment_num() == 0
+         && (bin.axial_pos_num() == g.pdi->get_min_axial_pos_num(0) || bin.axial_pos_num() == g.pdi->get_max_axial_pos_num(0));
+}
+
 static bool
 in_subset(const Geo& g, const RunCfg& c, std::size_t b, int subset, int max_seg)
 {
@@ -752,12 +854,12 @@ explicit_quantities(const Geo& g, const Data& d, const RunCfg& c, const Vec& lam
   for (std::size_t b = 0; b < g.bins.size(); ++b)
     {
       const int key = vkey(g.bins[b]);
-      vmax[key] = std::max(vmax.count(key) ? vmax[key] : 0., d.y[b]);
+      vmax[key] = std::max(vmax.count(key) ? vmax[key] : 0., end_plane_zeroed(g, c, g.bins[b]) ? 0. : d.y[b]);
     }
   // total (all subsets) sensitivity / subset sensitivity: for TOF data from the non-TOF matrix (efficiencies 1 there)
   for (std::size_t b = 0; b < g.sbins.size(); ++b)
     {
-      if (std::abs(g.sbins[b].segment_num()) > max_seg)
+      if (std::abs(g.sbins[b].segment_num()) > max_seg || end_plane_zeroed(g, c, g.sbins[b]))
         continue;
       const bool mine = (sens_by_sym ? g.sbasic_view_sym[b] : g.sbasic_view[b]) % c.nsub == subset;
       const double eff = g.tof ? 1. : d.eff[b];
@@ -767,7 +869,7 @@ explicit_quantities(const Geo& g, const Data& d, const RunCfg& c, const Vec& lam
     }
   for (std::size_t b = 0; b < g.bins.size(); ++b)
     {
-      if (std::abs(g.bins[b].segment_num()) > max_seg)
+      if (std::abs(g.bins[b].segment_num()) > max_seg || end_plane_zeroed(g, c, g.bins[b]))
         continue;
       const bool mine = in_subset(g, c, b, subset, max_seg);
       double fwd = 0;
@@ -847,7 +949,20 @@ run_real_case(const std::string& name, const Geo& g, const Data& d, RunCfg c, vh
         start[j] = -static_cast<float>(rng.unit());
     }
   put_cfg("real", g.nvox, c);
+  const int emx_second_k = rng.range(2, std::max(2, c.N)); // a second sub-iteration for the explicit-matrix model (besides the first eligible one)
+  int emx_emitted = 0;
   g_cov["real_cases"]++;
+  if (c.zero_end)
+    {
+      g_cov["zero_end_planes_cases"]++;
+      g_cov[std::string("zero_end_planes_nsub") + (c.nsub == 1 ? "1" : "N")]++;
+      g_cov[std::string("zero_end_planes_span") + std::to_string(g.span)]++;
+      g_cov[std::string("zero_end_planes_add") + (d.has_add ? "1" : "0") + "_norm" + (d.has_norm ? "1" : "0")]++;
+      if (g.tof)
+        g_cov["zero_end_planes_tof"]++;
+      if (c.prior_active())
+        g_cov["zero_end_planes_with_prior"]++;
+    }
   g_cov[std::string("real_map") + std::to_string(c.map_code())]++;
   g_cov[std::string("real_nsub") + std::to_string(c.nsub)]++;
 
@@ -992,6 +1107,32 @@ run_real_case(const std::string& name, const Geo& g, const Data& d, RunCfg c, vh
       // (formula) lambda' = lambda * A_S^T[y/(A_S lambda + a)] / s_S, 0 where s_S = 0
       if (!c.prior_active() && !filters && !c.clamps && ex.regular && nonneg_in)
         {
+          // operation for the model (`emExplicit`): numerator AND sensitivity formed by the model from the explicit system
+          // (`mat` / `dat`), the bins used decided by the model (subset, segments, `zero end planes of segment 0`)
+          if (!g.tof && (emx_emitted == 0 || k == emx_second_k) && emx_emitted < 2)
+            {
+              ++emx_emitted;
+              std::vector<int> idx(g.nvox);
+              for (int j = 0; j < g.nvox; ++j)
+                idx[j] = j;
+              const int nj = std::min(g.nvox, 24);
+              for (int i = 0; i < nj; ++i)
+                std::swap(idx[i], idx[rng.range(i, g.nvox - 1)]);
+              const int max_seg = c.max_seg >= 0 ? c.max_seg : g.pdi->get_max_segment_num();
+              std::fprintf(g_ops, "emx %d %d %d %d %d %zu J", k, subset, max_seg, c.zero_end ? 1 : 0, c.use_subset_sens ? 1 : 0,
+                           g.max_row + g.max_col + 16);
+              for (int i = 0; i < nj; ++i)
+                std::fprintf(g_ops, " %d", idx[i]);
+              std::fprintf(g_ops, " L ");
+              put_vec(g_ops, before);
+              std::fprintf(g_ops, "\n");
+              for (int i = 0; i < nj; ++i)
+                std::fprintf(g_out, "%s%a", i ? " " : "", static_cast<double>(after[idx[i]]));
+              std::fprintf(g_out, "\n");
+              g_cov["explicit_matrix_model_steps"]++;
+              if (c.zero_end)
+                g_cov["explicit_matrix_model_steps_zero_end_planes"]++;
+            }
           // the formula with the explicit sensitivity `s`; `bad` = first voxel off
           auto formula_ok = [&](const std::vector<double>& s_expl, int& bad_voxel) {
             for (int j = 0; j < g.nvox; ++j)
@@ -1023,6 +1164,8 @@ run_real_case(const std::string& name, const Geo& g, const Data& d, RunCfg c, vh
             }
           ++g_checks;
           g_cov["oracle_formula_steps"]++;
+          if (c.zero_end)
+            g_cov["oracle_formula_steps_zero_end_planes"]++;
           bool known_class = false;
           if (g.tof && c.nsub > 1 && c.use_subset_sens)
             { // does STIR's sensitivity subset (view symmetries of the non-TOF projector) differ from the data subset here?
@@ -1081,6 +1224,8 @@ run_real_case(const std::string& name, const Geo& g, const Data& d, RunCfg c, vh
           // bins with counts but zero estimate are outside the regular region (excluded by ex.regular)
           ++g_checks;
           g_cov["oracle_count_steps"]++;
+          if (c.zero_end)
+            g_cov["oracle_count_steps_zero_end_planes"]++;
           if (!(std::fabs(lhs - ex.total_counts) <= gam * ex.total_counts + 1e-30))
             oracle_fail("count-preservation case=" + name + " k=" + std::to_string(k) + " weighted_sum=" + vh::hex(lhs)
                         + " counts=" + vh::hex(ex.total_counts));
@@ -1099,6 +1244,8 @@ run_real_case(const std::string& name, const Geo& g, const Data& d, RunCfg c, vh
           const double tol = 8 * gam * (ex.ll_mag + exa.ll_mag) + 1e-30;
           ++g_checks;
           g_cov["oracle_monotone_steps"]++;
+          if (c.zero_end)
+            g_cov["oracle_monotone_steps_zero_end_planes"]++;
           if (ex.regular && exa.regular)
             {
               if (!(la >= lb - tol))
@@ -1219,6 +1366,8 @@ run_real_case(const std::string& name, const Geo& g, const Data& d, RunCfg c, vh
         }
     }
   g_cov["restart_uninterrupted_runs"]++;
+  if (c.zero_end)
+    g_cov["restart_uninterrupted_runs_zero_end_planes"]++;
   g_cov["restart_save_interval_" + std::to_string(si)]++;
   if (si > 1)
     { // the same run with a save interval: exactly the iterates k % interval == 0 and the last one are written
@@ -1387,6 +1536,136 @@ run_real_case(const std::string& name, const Geo& g, const Data& d, RunCfg c, vh
         {
           ++g_checks;
           oracle_fail("parameter-file run (initial estimate " + init + ") failed, case=" + name + ": " + e.what());
+        }
+    }
+
+  // ---- S: sensitivity files.  (1) `recompute sensitivity := 1` + `sensitivity filename` / `subset sensitivity filenames`: the
+  //         (subset) sensitivities are written, bitwise what get_sensitivity() / get_subset_sensitivity() of the probe deliver;
+  //         (2) `recompute sensitivity := 0` + the same names: a run that READS them (objects configured through the setters, or
+  //         a parameter file with these keywords and `initial estimate := <start image file>`) saves bitwise the iterates of
+  //         run B; (3) the files are really used: with files holding TWICE the sensitivity one sub-iteration is the model's
+  //         update with S := 2 s (operation `upd`)
+  if (do_side_branches)
+    {
+      RunCfg cw = cb;
+      cw.sens_mode = 1;
+      cw.sens_prefix = g_outdir + "/" + name;
+      try
+        {
+          {
+            Objects W = build(g, d, cw, 1, c.N, "");
+            shared_ptr<TargetT> imw(g.tmpl->clone());
+            from_vec(*imw, start);
+            if (W.recon->set_up(imw) != Succeeded::yes)
+              throw std::runtime_error("set_up W");
+          }
+          bool written_ok = true;
+          if (c.use_subset_sens)
+            for (int sub = 0; sub < c.nsub && written_ok; ++sub)
+              {
+                const std::string f = boost::str(boost::format(cw.subsens_pattern()) % sub);
+                written_ok = file_exists(f) && bitwise_equal(read_image(f), to_vec(probe->get_subset_sensitivity(sub)));
+              }
+          else
+            written_ok = file_exists(cw.sens_filename()) && bitwise_equal(read_image(cw.sens_filename()), to_vec(probe->get_sensitivity()));
+          ++g_checks;
+          if (!written_ok)
+            oracle_fail(std::string("recompute sensitivity + ") + (c.use_subset_sens ? "subset sensitivity filenames" : "sensitivity filename")
+                        + ": file(s) not written or not the sensitivity in use, case=" + name);
+          // (2)
+          RunCfg cr = cb;
+          cr.sens_mode = 2;
+          cr.sens_prefix = cw.sens_prefix;
+          const bool by_par = rng.coin();
+          const std::string prefR = g_outdir + "/" + name + "_sf";
+          if (by_par)
+            {
+              const std::string startfile = g_outdir + "/" + name + "_start.hv";
+              {
+                shared_ptr<TargetT> ims(g.tmpl->clone());
+                from_vec(*ims, start);
+                write_to_file(startfile, *ims);
+              }
+              const std::string par = write_par(g, d, cr, 1, c.N, prefR, startfile);
+              OSMAPOSLReconstruction<TargetT> r(par);
+              Objects po;
+              configure_filters(r, cr, po);
+              if (r.reconstruct() != Succeeded::yes)
+                throw std::runtime_error("reconstruct() with sensitivity files returned no");
+            }
+          else
+            {
+              Objects Rd = build(g, d, cr, 1, c.N, prefR);
+              shared_ptr<TargetT> imr(g.tmpl->clone());
+              from_vec(*imr, start);
+              if (Rd.recon->set_up(imr) != Succeeded::yes)
+                throw std::runtime_error("set_up with sensitivity files");
+              Rd.recon->reconstruct(imr);
+            }
+          g_cov[by_par ? "sensitivity_file_runs_parameter_file" : "sensitivity_file_runs_setters"]++;
+          g_cov[c.use_subset_sens ? "sensitivity_file_runs_subset_files" : "sensitivity_file_runs_total_file"]++;
+          int first_diff = -1;
+          for (int k = 1; k <= c.N && first_diff < 0; ++k)
+            {
+              const std::string f = prefR + "_" + std::to_string(k) + ".hv";
+              if (!file_exists(f) || !bitwise_equal(read_image(f), saved[k]))
+                first_diff = k;
+            }
+          ++g_checks;
+          if (first_diff > 0)
+            oracle_fail(std::string("run reading its sensitivity from file(s) (recompute sensitivity := 0, ")
+                        + (by_par ? "parameter file" : "setters") + ") differs from the run computing it at iterate "
+                        + std::to_string(first_diff) + ", case=" + name);
+          // (3)
+          RunCfg cx = c;
+          cx.iuf = cx.iif = 0;
+          cx.post = false;
+          cx.save_interval = 1;
+          cx.N = 1;
+          cx.sens_mode = 2;
+          cx.sens_prefix = g_outdir + "/" + name + "x2";
+          {
+            shared_ptr<TargetT> tmp(g.tmpl->clone());
+            auto twice = [&](const Vec& v, const std::string& f) {
+              Vec w(v);
+              for (float& x : w)
+                x *= 2.F;
+              from_vec(*tmp, w);
+              write_to_file(f, *tmp);
+            };
+            if (c.use_subset_sens)
+              for (int sub = 0; sub < c.nsub; ++sub)
+                twice(to_vec(probe->get_subset_sensitivity(sub)), boost::str(boost::format(cx.subsens_pattern()) % sub));
+            else
+              twice(to_vec(probe->get_sensitivity()), cx.sens_filename());
+          }
+          Objects X = build(g, d, cx, 1, 1, "");
+          shared_ptr<TargetT> imx(g.tmpl->clone());
+          from_vec(*imx, start);
+          if (X.recon->set_up(imx) != Succeeded::yes)
+            throw std::runtime_error("set_up with doubled sensitivity files");
+          ++g_checks;
+          if (!bitwise_equal(to_vec(*imx), image_after_setup))
+            oracle_fail("set_up with sensitivity files changes the start image differently, case=" + name);
+          Vec s2(steps[0].sens);
+          for (float& x : s2)
+            x *= 2.F;
+          // ORACLE: with `recompute sensitivity := 0` and file name(s) given, the sensitivity in use is the one in the file(s)
+          ++g_checks;
+          if (!bitwise_equal(to_vec(X.obj->get_subset_sensitivity(expected_subset(c, 1))), s2))
+            oracle_fail(std::string("recompute sensitivity := 0 with ") + (c.use_subset_sens ? "subset sensitivity filenames" : "sensitivity filename")
+                        + ": the sensitivity in use is not the one in the file(s) (s_S of the update is not the documented one), case=" + name);
+          X.recon->reconstruct(imx);
+          const Vec afterx = to_vec(*imx);
+          put_cfg("sensfile", g.nvox, cx);
+          put_upd(1, expected_subset(c, 1), image_after_setup, steps[0].gps, s2, c.prior_active() ? &steps[0].pg : nullptr, nullptr, afterx,
+                  nullptr, afterx);
+          g_cov["sensitivity_file_doubled_steps"]++;
+        }
+      catch (std::exception& e)
+        {
+          ++g_checks;
+          oracle_fail("run with sensitivity files failed, case=" + name + ": " + e.what());
         }
     }
 
@@ -2022,6 +2301,8 @@ main(int argc, char** argv)
         tofbins = rng.range(0, 2) == 0 ? 5 : 3;
       Geo g = make_geo(Ng, Rg, nxy, symflags, span, mash, tofbins);
       const int views = g.views;
+      if (!g.tof)
+        put_mat(g);
       g_cov["geometries"]++;
       g_cov["geometries_span" + std::to_string(span)]++;
       g_cov["geometries_view_mash" + std::to_string(mash)]++;
@@ -2034,6 +2315,8 @@ main(int argc, char** argv)
           const double level = sparse ? 0.6 : (rng.range(0, 2) == 0 ? 0.5 : 4.);
           Data d = make_data(g, rng, has_add, has_norm, level, sparse);
           g_cov[std::string("data_add") + (has_add ? "1" : "0") + "_norm" + (has_norm ? "1" : "0")]++;
+          if (!g.tof)
+            put_dat(g, d);
           // every number of subsets 1..views that the library accepts (it refuses unbalanced subsets)
           const std::vector<int> legal = legal_subset_numbers(g, d);
           g_cov["illegal_subset_numbers"] += views - static_cast<int>(legal.size());
@@ -2082,6 +2365,9 @@ main(int argc, char** argv)
                   c.N = std::min(nsub * full + rng.range(0, nsub - 1), thorough ? 18 : 9);
                   c.use_subset_sens = rng.range(0, 3) != 0;
                   c.enforce = rng.range(0, 3) != 0;
+                  // `zero end planes of segment 0`: plain EM variant: a fixed pattern over (geometry, data set), so that every
+                  // geometry style (span 1 / span 3 / view mashing / TOF) meets it with 1 and with several subsets; others: 1 in 3
+                  c.zero_end = v == 0 ? ((gi / 4 + gi + di) % 2 == 0) : rng.range(0, 2) == 0;
                   // v = 0: plain EM (formula, counts, monotone clauses); others: priors, clamps, filters
                   if (v > 0)
                     {
